@@ -17,7 +17,7 @@ import (
 
 func init() {
 	Register(&Prop{
-		ID: "C10", Engine: "A", Quick: 4000, Thorough: 300000, Level: "exploration",
+		ID: "C10", Engine: "A", Quick: 12000, Thorough: 300000, Level: "exploration",
 		Rule: "each run = one generated query scenario (select / insert, streamed or not, drawn schema, compression, revisions, read timeout, optional back-pressure) + one cancellation fault: context cancel or deadline expiry at a drawn gate (during handshake write/read, after k client bytes, after server script position p, at scheduler step s, inside callback j), with the server going silent at that instant in half of the runs; free schedule before the cancellation, fair mode after it; distinct = schedule digests; non-trivial = the cancellation fired while Connect or Do was in progress",
 		Run:  runC10,
 	})
